@@ -9,6 +9,8 @@ import time
 import z3
 from vals import *
 import interp as I
+XCHECK = bool(os.environ.get("GOBMC_XCHECK"))
+XCHECK_T = int(os.environ.get("GOBMC_XCHECK_T", "30"))
 from interp import Machine, Alt, Thread, Frame, Unsupported, BoundExceeded, _n
 
 
@@ -859,7 +861,41 @@ class Run:
         dt = time.time() - t0
         self.m.stats["solver_checks"] += 1
         self.m.stats["solver_s"] += dt
+        if XCHECK and r != z3.unknown:
+            self.xcheck(s, [B(e) for e in extra], r)
         return r, (s.model() if r == z3.sat else None), dt
+
+    def xcheck(self, s, extra, verdict):
+        # the same query (SMT-LIB2 text produced by z3's printer from the asserted formulas) decided by two other solver
+        # builds: the system z3 4.8.12 binary and cvc5; agreement / disagreement / no answer is counted in the evidence
+        import subprocess, tempfile
+        s2 = z3.Solver()
+        s2.add(*s.assertions())
+        s2.add(*extra)
+        txt = s2.to_smt2()
+        st = self.m.stats.setdefault("xcheck", {})
+        with tempfile.NamedTemporaryFile("w", suffix=".smt2", delete=False) as fh:
+            fh.write(txt)
+            path = fh.name
+        try:
+            for name, cmd in (("z3-4.8.12", ["/usr/bin/z3", "-T:%d" % XCHECK_T, path]),
+                              ("cvc5", ["cvc5", "--tlimit=%d" % (XCHECK_T * 1000), path])):
+                try:
+                    out = subprocess.run(cmd, capture_output=True, text=True, timeout=XCHECK_T + 10).stdout
+                except Exception:
+                    out = "timeout"
+                first = out.strip().split("\n")[0] if out.strip() else "none"
+                if "(error" in out or first not in ("sat", "unsat"):
+                    k = "no_answer"
+                elif first == str(verdict):
+                    k = "agree"
+                else:
+                    k = "DISAGREE"
+                    st.setdefault("disagreements", []).append(dict(solver=name, ours=str(verdict), theirs=first, smt2=path))
+                st[name + "." + k] = st.get(name + "." + k, 0) + 1
+        finally:
+            if not st.get("disagreements"):
+                os.remove(path)
 
     def schedule_of(self, model):
         out = []
